@@ -828,7 +828,7 @@ _ure_cclass(ucs2_t *cp, unsigned long limit, _ure_symtab_t *symp,
   sp = cp;
   ep = sp + limit;
 
-  if (*sp == '^') {
+  if (sp < ep && *sp == '^') {
     symp->type = _URE_NCCLASS;
     sp++;
   } else
@@ -949,7 +949,7 @@ _ure_cclass(ucs2_t *cp, unsigned long limit, _ure_symtab_t *symp,
        * add it as the range start.  Otherwise, save it in case the next
        * character is a low surrogate.
        */
-      if (*sp == '-') {
+      if (sp < ep && *sp == '-') {
 	sp++;
 	range.min_code = c;
 	range_end = 1;
@@ -961,7 +961,7 @@ _ure_cclass(ucs2_t *cp, unsigned long limit, _ure_symtab_t *symp,
       range_end = 0;
     } else {
       range.min_code = range.max_code = c;
-      if (*sp == '-') {
+      if (sp < ep && *sp == '-') {
 	sp++;
 	range_end = 1;
       } else
@@ -1131,7 +1131,8 @@ _ure_compile_symbol(ucs2_t *sym, unsigned long limit, _ure_symtab_t *symp,
       symp->sym.chr = 0x10000 + (((symp->sym.chr & 0x03ff) << 10) |
 				 (*sp & 0x03ff));
       sp++;
-    } else if (*sp == '\\' && (*(sp + 1) == 'x' || *(sp + 1) == 'X' ||
+    } else if (*sp == '\\' && sp + 1 < ep &&
+	       (*(sp + 1) == 'x' || *(sp + 1) == 'X' ||
 			       *(sp + 1) == 'u' || *(sp + 1) == 'U')) {
       sp += _ure_probe_ls(sp + 2, ep - (sp + 2), &c);
       if (0xdc00 <= c && c <= 0xdfff) {
